@@ -5,6 +5,7 @@ package main
 // token-level query minimiser.
 
 import (
+	"context"
 	"fmt"
 	"reflect"
 	"sort"
@@ -273,6 +274,12 @@ func outcomeOf(res translate.Result, err error, panicked string) xlOutcome {
 	}
 	sort.Strings(lows)
 	return xlOutcome{Status: "ok", SQL: masked, RawSQL: raw, Params: ToSexp(res.Parameters), Keys: keys, Lowerings: lows}
+}
+
+// translateSafeNoRecover calls the real translator directly; the caller recovers (and can see the stack).
+func translateSafeNoRecover(q *cypher.RegularQuery, mapper pgsql.KindMapper, params map[string]any) (translate.Result, error, string) {
+	res, err := translate.Translate(context.Background(), q, mapper, params, translate.DefaultGraphID)
+	return res, err, ""
 }
 
 // translateOutcome parses nothing: it translates a model under recover and canonicalises the result.
